@@ -79,7 +79,7 @@ def jitter(img, scale, pixelscale=1, oversample=1):
     kernel = np.exp(-2 * (np.pi * (scale / pixelscale) * oversample * rho) ** 2)
 
     out = np.abs(np.fft.ifft2(np.fft.fft2(img)*kernel))
-    return out * np.sum(img) / np.sum(out)  # rescale to preserve input weight
+    return _rescale(out, img)
 
 
 def smear(img, distance, angle=None, pixelscale=1, oversample=1):
@@ -170,5 +170,14 @@ def smear(img, distance, angle=None, pixelscale=1, oversample=1):
     kernel = np.sinc(yy_rot * (distance / pixelscale) * oversample)
 
     out = np.abs(np.fft.ifft2(np.fft.fft2(img)*kernel))
-    return out * np.sum(img) / np.sum(out)  # rescale to preserve input weight
+    return _rescale(out, img)
 
+
+def _rescale(out, img):
+    # rescale out to preserve the input weight. The totals are taken in double
+    # precision whatever the dtype of img, and an image without any signal is
+    # returned as it is (nothing to preserve; avoids 0/0)
+    total_out = np.sum(out, dtype=float)
+    if total_out == 0:
+        return out
+    return out * (np.sum(img, dtype=float) / total_out)
